@@ -159,6 +159,9 @@ class Mix(Scenario):
             w.add_actor('pub' + it.tag + role, steps)
             return pub
 
+        if it.pub in ('rx3', 'rx4', 'rx3bp', 'rx4bp'):
+            return self._rx_publisher(w, it, side, role, count)
+
         def gen():
             for i in range(count):
                 yield it.pay(role, i), (i == count - 1)
@@ -175,6 +178,35 @@ class Mix(Scenario):
         else:
             from rsocket.streams.stream_from_async_generator import StreamFromAsyncGenerator
             pub = StreamFromAsyncGenerator(agen, **cb)
+        st['pub' + role] = pub
+        return pub
+
+    def _rx_publisher(self, w, it, side, role, count):
+        """Rx (v3) / ReactiveX (v4) observable-backed publishers of the library."""
+        import asyncio
+        st = w.objs['st'][it.tag]
+        items = [it.pay(role, i) for i in range(count)]
+        if it.pub.startswith('rx3'):
+            import rx as RX
+            from rsocket.rx_support import back_pressure_publisher as bp
+        else:
+            import reactivex as RX
+            from rsocket.reactivex import back_pressure_publisher as bp
+        name = 'pub' + it.tag + role
+        if it.pub.endswith('bp'):
+            q = asyncio.Queue()
+            for e in items:
+                q.put_nowait(e)
+            q.put_nowait(None)
+
+            def factory(backpressure):
+                backpressure.subscribe(on_next=lambda n: w.api(side, name, 'request', (n,)),
+                                       on_completed=lambda: w.api(side, name, 'cancel', ()))
+                return bp.observable_from_queue(q, backpressure)
+
+            pub = bp.observable_to_publisher(bp.from_observable_with_backpressure(factory))
+        else:
+            pub = bp.observable_to_publisher(RX.from_iterable(items))
         st['pub' + role] = pub
         return pub
 
@@ -371,6 +403,8 @@ class Mix(Scenario):
                         finished_before = True
                 if it.kind == 'rr' and ev[0] == 'tx' and ev[1] == resp_ep and ev[2].sid == sid and ev[2].type in (R.PAYLOAD, R.ERROR):
                     finished_before = True
+                if ev[0] == 'tx' and ev[1] == resp_ep and ev[2].sid == sid and (ev[2].type == R.ERROR or (ev[2].type == R.PAYLOAD and ev[2].complete and not ev[2].follows)):
+                    finished_before = True  # the producer had already put its terminal frame on the wire
             if it.kind == 'rr':
                 rf = st.get('rrfut')
                 if rf is None:
@@ -380,6 +414,8 @@ class Mix(Scenario):
             if not finished_before:
                 if it.kind == 'rr':
                     seen = st['rrfut'].cancelled()
+                elif it.pub in ('rx3', 'rx4'):
+                    seen = True  # a plain observable is buffered by the adapter; only "production stops" is observable
                 elif it.pub == 'manual':
                     seen = st['pubd'].cancelled >= 1
                 else:
